@@ -22,7 +22,9 @@
 *)
 EXTENDS Naturals, Sequences, FiniteSets, TLC, Json
 
-CONSTANTS MaxMinor       \* targets 3.0 .. 3.MaxMinor; literal minors 0 .. MaxMinor+1
+CONSTANTS MaxMinor,      \* targets 3.0 .. 3.MaxMinor; literal minors 0 .. MaxMinor+1
+          FiveTuple      \* TRUE: sys.version_info has five components (FALSE = only (major, minor), the view
+                         \* reachability.py compares with: the specification-level mutant)
 
 None == 99               \* an omitted slice bound
 RL == 1000               \* stands for the string 'final' (sys.version_info[3])
@@ -91,7 +93,7 @@ Complete == stage \in {"atom", "bin", "done"}
 
 \* ------------------------------------------------------------------ run-time values
 Target(minor, micro, plat) == [minor |-> minor, micro |-> micro, plat |-> plat]
-VersionInfo(t) == <<3, t.minor, t.micro, RL, 0>>
+VersionInfo(t) == IF FiveTuple THEN <<3, t.minor, t.micro, RL, 0>> ELSE <<3, t.minor>>
 Min2(x, y) == IF x < y THEN x ELSE y
 PySlice(s, lo, hi) == LET l == IF lo = None THEN 0 ELSE lo
                           h == IF hi = None THEN Len(s) ELSE Min2(hi, Len(s))
